@@ -43,7 +43,7 @@ m = dict(
         dict(name="kani", path="/verif/vf/run_kani.py", serves_properties=sorted(propinfo.PROPS), kind_free_text="Kani 0.68 / CBMC 6.11 harnesses compiled into the crate from /repo's working tree (cfg(kani))"),
     ],
     checks=checks,
-    notes="Contract-based deductive verification: see DESIGN.md. Exit 2 = UNDECIDED (never an alarm).",
+    notes="Contract-based deductive verification: see DESIGN.md. Exit 2 = UNDECIDED (never an alarm). Known findings and repaired defects: /verif/known_findings.txt (read-only at run time; `known:` lines are echoed as KNOWN-FINDING, `fixed:` lines suppress nothing); reproductions under /verif/findings/. Seeded changes: /verif/seeded/.",
     not_applicable=na,
 )
 json.dump(m, open(os.path.join(VERIF, "MANIFEST.json"), "w"), indent=1)
